@@ -25,7 +25,7 @@ BUDGET = {"quick": 12000, "thorough": 400000}
 TIME_CAP = {"quick": 240, "thorough": 1700}
 ANCHORS = ["SVG.parse", "SVG._use_structure_parse", "Matrix.parse", "Color.parse", "Length.__init__", "Viewbox.set_viewbox", "Use.property_by_values",
            "Group.property_by_values", "Transformable.property_by_values", "GraphicObject.property_by_values", "_Polyshape.property_by_values", "Path.parse"]
-REQUIRED_MONITORS = ["no-exception", "siblings-unaffected", "no-foreign-shapes", "returns-tree", "steps"]
+REQUIRED_MONITORS = ["no-exception", "siblings-unaffected", "no-foreign-shapes", "returns-tree", "steps", "offending-path-as-alone"]
 
 KINDS = ["d", "transform", "colour", "length", "points", "viewbox", "par", "number", "href", "cycle", "misc"]
 
@@ -71,7 +71,15 @@ def _xml_ok(t):
     return all(c in "\t\n\r" or (" " <= c and c not in "￾￿" and not ("\ud800" <= c <= "\udfff")) for c in t)
 
 
+# faulty path data chosen for the parser state it is in when the error is met (pending inline close, pending smooth control, open arc flags,
+# half-read pair): a later path in the same document must not see any of it
+STATEFUL_D = ["M 0 0 L 10 z", "M0,0 C 1,2 3,4 z 5", "M 1 1 L 5 5 L", "M1,1 Q", "M0 0 A 1 1 0 0 z", "M2,2 L3,3 z L", "M 1 1 S", "M0,0 T 1", "M 3 3 C z", "M0,0 L1,1 z M5,5 L",
+              "M 0 0 Q 1 1 z 4", "M1,2 A 5 5 0 1", "M1,2 H", "M 0,0 L 1,1 Z 7 7", "M0 0 S 1 1 2 2 S 3", "M 4 4 a 1 1 0 0 1 z 9"]
+
+
 def bad_path_data(R):
+    if R.random() < 0.3:
+        return R.choice(STATEFUL_D)
     for _ in range(20):
         c = c09.gen_case(R, 0, "quick")
         if "text" in c and _xml_ok(c["text"]) and len(c["text"]) < 400:
@@ -197,6 +205,11 @@ def gen_case(R, index, tier):
     f = one(kind)
     if f:
         faults.append(f)
+        if f["attr"] == "d" and R.random() < 0.5:
+            # a second faulty path elsewhere in the same document (state carried from one path's failed parse into the next)
+            others = [n for n in nodes if n["tag"] == "path" and n["id"] != f["id"]]
+            if others:
+                faults.append({"id": R.choice(others)["id"], "attr": "d", "text": bad_path_data(R)})
     for _ in range(nf - 1):
         f = one(R.choice(KINDS))
         if f:
@@ -326,6 +339,20 @@ def run_case(S, case, ctx):
         ctx.note("fault on " + f["attr"])
     for a in case["added"]:
         ctx.note("cyclic use added")
+    alone_kinds = {}
+    for f in case["faults"]:
+        if f["attr"] == "d":
+            try:
+                S.Path("M0,0 L1,1 z")  # leaves the path parser in its rest state whatever the previous data did
+                alone = S.Path()
+                try:
+                    alone.parse(f["text"])
+                except ValueError:
+                    pass
+                alone_kinds[f["id"]] = [type(seg).__name__ for seg in alone]
+                S.Path("M0,0 L1,1 z")
+            except Exception:
+                pass  # C09's subject
     ctx.mon("no-exception")
     what = "+".join(sorted({f["attr"] for f in case["faults"]} | ({"use-cycle"} if case["added"] else set())))
     count = _steps is not None and (ctx.case_index or 0) % 4 == 0
@@ -371,6 +398,25 @@ def run_case(S, case, ctx):
                 ctx.violation("sibling-unusable/%s/%s" % (type(e).__name__, where_raised(e)), "%s #%s (not an offending element) is returned but abs(Path(shape)) raises %r; document %s" % (
                     DM.tag_of(sh), sh.id, e, d), monitor="siblings-unaffected")
             return
+    # "rendered up to the error": a path whose data is in error, when it is rendered at all, carries the segments the same data gives when parsed
+    # on its own (that prefix is C09's subject) - whatever else was parsed before it in this document
+    dfaults = [f for f in case["faults"] if f["attr"] == "d"]
+    for f in dfaults:
+        if sum(1 for g in dfaults if g["id"] == f["id"]) > 1 or f["text"].lstrip(" \t\r\n\f")[:1] not in ("M", "m"):
+            continue  # data that does not begin with a moveto is a fragment at Path level but an error in a document: no common reading
+        inst = [sh for sh in DM.shapes(S, svg) if isinstance(sh, S.Path) and sh.id == f["id"]]
+        if not inst:
+            continue
+        if f["id"] not in alone_kinds:
+            continue
+        ctx.mon("offending-path-as-alone")
+        want = alone_kinds[f["id"]]
+        for sh in inst:
+            have = [type(seg).__name__ for seg in sh]
+            if have != want:
+                ctx.violation("offending-path-differs-from-same-data-alone/%s" % ("more-segments" if len(have) > len(want) else "fewer-segments" if len(have) < len(want) else "kinds"),
+                              "path #%s with d=%r is rendered as %s, the same data parsed on its own gives %s; document %s" % (f["id"], f["text"], have, want, d), monitor="offending-path-as-alone")
+                return
     try:
         ref = [signature(S, s) for s in DM.shapes(S, S.SVG.parse(io.StringIO(dprime)))]
     except Exception as e:
